@@ -36,6 +36,8 @@ def nonparallel_pair(rng):
         phi = gen.logu(rng, 2e-3, math.pi / 2) if r_ < 0.45 else gen.logu(rng, 2e-6, 2e-3) if r_ < 0.55 else rng.uniform(2e-3, math.pi - 2e-3)
         if r_ >= 0.95:       # nearly parallel but not parallel: the frame is badly determined, it must still be a frame
             phi = gen.logu(rng, 1e-12, 2e-6)
+        if 0.55 <= r_ < 0.67:     # nearly, not exactly, at right angles (o.a of 1e-12 .. 1e-6: "already perpendicular" is not)
+            phi = math.pi / 2 + gen.sign(rng) * gen.logu(rng, 1e-12, 1e-6)
         # rotate unit(a) by phi about a perpendicular direction
         ua = a / np.linalg.norm(a)
         p = np.cross(ua, gen.unit_axis(rng))
@@ -105,7 +107,7 @@ def _ctor(rng, clsname, multi=False):
     r = rng.random()
     if clsname in ('SO3', 'SE3', 'UnitQuaternion'):
         if multi:
-            n = int(rng.integers(2, 5))
+            n = int(rng.integers(2, 8))
             k = rng.integers(9)
             if k < 3:
                 return ['Rx', 'Ry', 'Rz'][k], [_angs(rng, unit, n)], {'unit': unit}
@@ -189,7 +191,7 @@ def _ctor(rng, clsname, multi=False):
         return 'Exp', [np.r_[gen.transl(rng), w].tolist()], {}
     if clsname == 'SO2':
         if multi:
-            n = int(rng.integers(2, 5))
+            n = int(rng.integers(2, 8))
             return '', [_angs(rng, unit, n)], {'unit': unit}
         k = rng.integers(4)
         if k == 0:
@@ -201,7 +203,7 @@ def _ctor(rng, clsname, multi=False):
         return '', [gen.so2(rng)], {}
     if clsname == 'SE2':
         if multi:
-            n = int(rng.integers(2, 5))
+            n = int(rng.integers(2, 8))
             return 'Rand', [], {'N': n, '_seed': int(rng.integers(2 ** 31))}
         k = rng.integers(6)
         t = gen.transl(rng, 2)
